@@ -4,6 +4,8 @@
 package main
 
 import (
+	"encoding/hex"
+	"encoding/json"
 	"errors"
 	"flag"
 	"fmt"
@@ -21,12 +23,13 @@ import (
 )
 
 var (
-	prop     = flag.String("prop", "conn", "case stream (conn)")
-	seed     = flag.Uint64("seed", 1, "PRNG seed")
-	n        = flag.Int("n", 1000, "number of scenarios")
-	out      = flag.String("out", "", "output JSONL")
-	parallel = flag.Int("parallel", 192, "scenarios in flight")
-	maxLen   = flag.Int("len", 14, "max events per scenario")
+	prop       = flag.String("prop", "conn", "case stream (conn)")
+	seed       = flag.Uint64("seed", 1, "PRNG seed")
+	n          = flag.Int("n", 1000, "number of scenarios")
+	out        = flag.String("out", "", "output JSONL")
+	parallel   = flag.Int("parallel", 192, "scenarios in flight")
+	maxLen     = flag.Int("len", 14, "max events per scenario")
+	variantsOf = flag.String("variants", "", "JSONL of earlier cases: run fault/perturbation variants of them instead of new scenarios")
 )
 
 // ---- fakes -----------------------------------------------------------------
@@ -334,7 +337,9 @@ func lastType(sc *scenario) uint {
 type scriptT struct {
 	client bool
 	stored string
+	local  string
 	steps  []string
+	fixed  []scriptEv // when set, these exact events are executed (variants of an earlier scenario)
 }
 
 var scripts = []scriptT{
@@ -427,6 +432,50 @@ func scriptEvent(r *vh.Rng, step string, st int, storedID string, pay *int) []*e
 	return []*event{e}
 }
 
+// scriptEv is the machine-readable form of an executed event, enough to run it again.
+type scriptEv struct {
+	Kind   string `json:"kind"`
+	Msg    string `json:"msg"`
+	Safe   bool   `json:"safe"`
+	Code   int    `json:"code"`
+	Reason bool   `json:"reason"`
+	Pay    int    `json:"pay"`
+	Paired bool   `json:"paired"`
+	Auto   bool   `json:"auto"`
+	Allow  bool   `json:"allow"`
+	Wf     int    `json:"wf"`
+}
+
+func (se scriptEv) event() *event {
+	e := &event{kind: se.Kind, safe: se.Safe, code: se.Code, reason: se.Reason, pay: se.Pay, paired: se.Paired, auto: se.Auto, allow: se.Allow, wf: se.Wf}
+	switch se.Kind {
+	case "run":
+		e.coqEv = "ERun"
+	case "recv":
+		e.msg, _ = hex.DecodeString(se.Msg)
+		v := viewOf(e.msg)
+		e.coqEv = "(ERecv " + v.coq + ")"
+		e.slow = v.isAnnounce
+	case "timeout", "selftimeout":
+		e.kind, e.coqEv = "timeout", "ETimeout"
+	case "connerr":
+		e.coqEv = "EConnErr"
+	case "wclosed":
+		e.coqEv = "EWClosed"
+	case "approve":
+		e.coqEv = "EApprove"
+	case "abort":
+		e.coqEv = "EAbort"
+	case "close":
+		e.coqEv = fmt.Sprintf("(EClose %s %d %s)", vh.B(e.safe), e.code, vh.B(e.reason))
+	case "spine":
+		e.coqEv = fmt.Sprintf("(ESpineWrite %d)", e.pay)
+	case "deferred":
+		e.coqEv, e.slow = "EDeferred", true
+	}
+	return e
+}
+
 type result struct {
 	obs     []string
 	outcome string // "", "panic", "hang"
@@ -500,6 +549,9 @@ func runScenario(r *vh.Rng, maxLen int, script *scriptT) *scenario {
 	if r.Chance(45) {
 		sc.stored = vh.Pick(r, shipIDs[:2])
 	}
+	if script != nil && script.local != "" {
+		sc.local = script.local
+	}
 	if script != nil {
 		role, sc.role, sc.stored = ship.ShipRoleServer, "Server", script.stored
 		if script.client {
@@ -518,7 +570,10 @@ func runScenario(r *vh.Rng, maxLen int, script *scriptT) *scenario {
 	step := 0
 	fastSince := time.Now()
 	for len(sc.events) < length {
-		if script != nil && step >= len(script.steps) {
+		if script != nil && script.fixed == nil && step >= len(script.steps) {
+			break
+		}
+		if script != nil && script.fixed != nil && step >= len(script.fixed) {
 			break
 		}
 		snap := conn.VerifSnapshot()
@@ -526,7 +581,10 @@ func runScenario(r *vh.Rng, maxLen int, script *scriptT) *scenario {
 		wclosed := env.closed
 		env.mu.Unlock()
 		var evs []*event
-		if script != nil {
+		if script != nil && script.fixed != nil {
+			evs = []*event{script.fixed[step].event()}
+			step++
+		} else if script != nil {
 			evs = scriptEvent(r, script.steps[step], int(snap.State), snap.RemoteShipID, &pay)
 			step++
 		} else {
@@ -619,6 +677,7 @@ func (sc *scenario) toCase() vh.Case {
 	evs := make([]string, len(sc.events))
 	obs := make([]string, len(sc.events))
 	var hum []map[string]any
+	var script []scriptEv
 	for i, e := range sc.events {
 		evs[i] = e.coq()
 		obs[i] = vh.List(sc.obs[i])
@@ -634,6 +693,8 @@ func (sc *scenario) toCase() vh.Case {
 		}
 		h["env"] = fmt.Sprintf("paired=%v auto=%v allow=%v", e.paired, e.auto, e.allow)
 		hum = append(hum, h)
+		script = append(script, scriptEv{Kind: e.kind, Msg: fmt.Sprintf("%x", e.msg), Safe: e.safe, Code: e.code, Reason: e.reason, Pay: e.pay,
+			Paired: e.paired, Auto: e.auto, Allow: e.allow, Wf: e.wf})
 	}
 	coq := fmt.Sprintf("mkConnCase %s %s %s %s %s", sc.role, vh.HxS(sc.stored), vh.HxS(sc.local), vh.List(evs), vh.List(obs))
 	kind := fmt.Sprintf("%s/max%d", sc.role, sc.maxState)
@@ -643,7 +704,57 @@ func (sc *scenario) toCase() vh.Case {
 	return vh.Case{
 		Coq: coq, Nontrivial: sc.maxState >= 8, Key: sc.role + sc.stored + sc.local + strings.Join(evs, ";"),
 		Kind:   kind,
-		Sample: map[string]any{"role": sc.role, "stored_ship_id": sc.stored, "local_ship_id": sc.local, "events": hum},
+		Sample: map[string]any{"role": sc.role, "stored_ship_id": sc.stored, "local_ship_id": sc.local, "events": hum, "script": script},
+	}
+}
+
+// loadVariants replaces the directed scenarios by variants of earlier cases (the search for
+// a failing input around a disagreement): the case itself, and for every event the same
+// scenario with the transport closing before the k-th data-writer call of that event
+// (k < 6), with the waiting-allowed answer flipped, and truncated after that event followed
+// by a timeout and a wait for the deferred goroutines.
+func loadVariants(path string) {
+	f, err := os.Open(path)
+	if err != nil {
+		fmt.Fprintln(os.Stderr, err)
+		os.Exit(2)
+	}
+	defer f.Close()
+	scripts = nil
+	dec := json.NewDecoder(f)
+	for {
+		var c struct {
+			Sample struct {
+				Role   string     `json:"role"`
+				Stored string     `json:"stored_ship_id"`
+				Local  string     `json:"local_ship_id"`
+				Script []scriptEv `json:"script"`
+			} `json:"sample"`
+		}
+		if err := dec.Decode(&c); err != nil {
+			break
+		}
+		base := scriptT{client: c.Sample.Role == "Client", stored: c.Sample.Stored, local: c.Sample.Local}
+		add := func(evs []scriptEv) {
+			s := base
+			s.fixed = evs
+			scripts = append(scripts, s)
+		}
+		evs := c.Sample.Script
+		add(evs)
+		for i := range evs {
+			for k := 0; k < 6; k++ {
+				v := append([]scriptEv(nil), evs...)
+				v[i].Wf = k
+				add(v)
+			}
+			v := append([]scriptEv(nil), evs...)
+			v[i].Allow = !v[i].Allow
+			add(v)
+			t := append([]scriptEv(nil), evs[:i+1]...)
+			t = append(t, scriptEv{Kind: "timeout", Wf: -1, Allow: true}, scriptEv{Kind: "deferred", Wf: -1, Allow: true}, scriptEv{Kind: "timeout", Wf: -1, Allow: true})
+			add(t)
+		}
 	}
 }
 
@@ -656,6 +767,10 @@ func main() {
 	runtime.GOMAXPROCS(runtime.NumCPU())
 	w := vh.NewWriter(*out)
 	defer w.Close()
+	if *variantsOf != "" {
+		loadVariants(*variantsOf)
+		*n = len(scripts)
+	}
 	master := vh.NewRng(*seed)
 	// one PRNG per scenario index, so a scenario is a function of (seed, index) and of the
 	// implementation's behaviour only
